@@ -258,7 +258,11 @@ impl<T: El> MapWorld<T> {
         if got != want {
             vbail!("audit", "contents differ: iter gives {:?}, reference {:?}", got, want);
         }
-        for (&k, &v) in &self.r {
+        for (i, (&k, &v)) in self.r.iter().enumerate() {
+            if i % 4096 == 4095 {
+                // a full audit of a very large map is progress, not a hang
+                crate::engine::PROGRESS.fetch_add(1, std::sync::atomic::Ordering::Relaxed);
+            }
             let kk = harness(|| Self::mkk(k));
             let g = m.get(&kk).map(|x| x.id());
             harness(|| drop(kk));
@@ -522,7 +526,18 @@ impl<T: El> MapWorld<T> {
                     match b {
                         0 => e.from_key(&kk),
                         1 => e.from_key_hashed_nocheck(h, &kk),
-                        _ => e.from_hash(h, |q| q.id() == lk),
+                        2 => e.from_hash(h, |q| q.id() == lk),
+                        _ => {
+                            let mut asked = false;
+                            e.from_hash(h, move |q| {
+                                if q.id() == lk && !asked {
+                                    asked = true;
+                                    true
+                                } else {
+                                    false
+                                }
+                            })
+                        }
                     }
                     .map(|(a, b)| (a.id(), b.id()))
                 });
